@@ -112,7 +112,9 @@ def compName (d : ClassDiagram) (comp : Nat) : String :=
 def xclassAll (d : ClassDiagram) (c : Class) : XClass :=
   { kl := c.kl, attrs := (looseOf d c.id).filterMap (xattr d) ++ (xclassOf d c).attrs }
 
-/-- `build_schema(m, c_c)` as a declaration list -/
+/-- `build_schema(m, c_c)` as a declaration list.  The second loop of the code takes the data types that are contained in
+    the component AND not global (so that none is declared twice); in the model a contained data type is never global
+    (`contained_not_global`, Props/C20 `xsd_type_loops_disjoint`), so the second condition is not repeated here. -/
 def xsdSpec (d : ClassDiagram) (comp : Nat) : XsdSpec :=
   { types := (d.dts.filter (fun t => isGlobal d.containers t.parent)).filterMap (xtypeOf d.dts) ++
              (d.dts.filter (fun t => containedIn d.containers comp t.parent)).filterMap (xtypeOf d.dts),
